@@ -226,6 +226,32 @@ def run(ctx):
                     ctx.violation("flag-in-loop", key, "this loop runs for as long as %s keeps delivering and never reads the shutdown flag: a signal is not observed while it spins (reached via %s)" % ("/".join(sorted(srcs_io)), chain), fn.loc(hdr), chain=chain)
             else:
                 ctx.violation("flag-in-loop", key, "loop without exit and without a flag check", fn.loc(hdr), chain=chain)
+    # every load of the flag inside a loop: on `false` control must leave that loop for good
+    nload = 0
+    for fp in sorted(reach):
+        fn = P.fns[fp]
+        ev = W.ev(fp)
+        for (lb, lterm) in flag_terms(W, fn, ev, bound.get(fp, set())):
+            for lp in fn.in_loop(lb):
+                nload += 1
+                okl = False
+                for bl in lp["body"]:
+                    tt = fn.blocks[bl].term
+                    if tt["k"] == "switch":
+                        c = ev.op(tt["op"], (bl, "term"))
+                        neg = False
+                        while isinstance(c, tuple) and c[0] == "un" and c[1] == "Not":
+                            c = c[2]
+                            neg = not neg
+                        if c == lterm:
+                            fv = 1 if neg else 0
+                            tgt = tt["otherwise"]
+                            for val, b2 in tt["cases"]:
+                                if val == fv:
+                                    tgt = b2
+                            okl = tgt not in lp["body"] or not fn.reaches(tgt, lp["header"]) and tgt != lp["header"]
+                ctx.check("flag-false-leaves-loop", "%s" % fp, okl, "when the flag reads false the loop is left", "the loop in %s continues although the shutdown flag reads false" % fp, fn.loc(lb))
+    ctx.floor("flag-false-leaves-loop", nload, 2, "flag loads inside loops")
     ctx.extra["loops_classified"] = kinds
     ctx.floor("flag-in-loop", nloops, 12, "loops reachable from the thread entries")
     ctx.floor("flag-in-loop-flagged", kinds.get("flag", 0), 2, "loops that read the shutdown flag (worker loop, reporter loop)")
